@@ -3,7 +3,8 @@ Proofs/RxLex.lean — the lexer on concrete syntax: a string that spells a list 
 tokens, with blanks (space / tab) anywhere between them, lexes to exactly that list.
 
 `TokText t txt`  : `txt` is a spelling of token `t` (symbols are single non-blank, non-reserved
-                   characters; repetition bounds are non-empty ASCII digit strings or omitted);
+                   characters; repetition bounds are non-empty ASCII digit strings, with blanks
+                   before / after them inside the braces, or omitted);
 `Renders ts s`   : `s` is the spellings of `ts` in order with arbitrary blanks in between.
 Core only.
 -/
@@ -50,6 +51,19 @@ def Digits (g : List Char) : Prop := g ≠ [] ∧ ∀ c ∈ g, c.isDigit = true
 /-- Decimal value of a digit string. -/
 def decValue (g : List Char) : Nat := g.foldl (fun acc c => acc * 10 + (c.toNat - '0'.toNat)) 0
 
+/-- Blanks only (space / tab). -/
+def Blanks (p : List Char) : Prop := ∀ c ∈ p, isBlank c = true
+
+instance (p : List Char) : Decidable (Blanks p) := by unfold Blanks; infer_instance
+
+/-- `g` is the digit string `d` with blanks before and after it: the text of a repetition bound
+between the brace / comma delimiters, as in `a{ 1 , 2 }` (`int()` strips the blanks). -/
+def PadDigits (g d : List Char) : Prop :=
+  ∃ p q, g = p ++ d ++ q ∧ Blanks p ∧ Blanks q ∧ Digits d
+
+theorem PadDigits.of_digits {d : List Char} (h : Digits d) : PadDigits d d :=
+  ⟨[], [], by simp, fun c hc => (by cases hc), fun c hc => (by cases hc), h⟩
+
 inductive TokText : Tok Char → List Char → Prop
   | lparen : TokText .lparen ['(']
   | rparen : TokText .rparen [')']
@@ -61,9 +75,11 @@ inductive TokText : Tok Char → List Char → Prop
   | opt : TokText .opt ['?']
   | wildcard : TokText .wildcard ['.']
   | sym (c : Char) : SymChar c → TokText (.str [c]) [c]
+  /-- `{g1,g2}`: each bound is omitted (empty text — not even a blank) or a digit string with
+  blanks around it; an upper bound is at least the lower bound. -/
   | quant (g1 g2 : List Char) (lo : Nat) (hi : Option Nat) :
-      ((g1 = [] ∧ lo = 0) ∨ (Digits g1 ∧ decValue g1 = lo)) →
-      ((g2 = [] ∧ hi = none) ∨ (Digits g2 ∧ hi = some (decValue g2) ∧ lo ≤ decValue g2)) →
+      ((g1 = [] ∧ lo = 0) ∨ (∃ d, PadDigits g1 d ∧ decValue d = lo)) →
+      ((g2 = [] ∧ hi = none) ∨ (∃ d, PadDigits g2 d ∧ hi = some (decValue d) ∧ lo ≤ decValue d)) →
       TokText (.quant lo hi) ('{' :: (g1 ++ ',' :: (g2 ++ ['}'])))
 
 /-- `s` spells the token list `ts`, with blanks anywhere between (before, after) the tokens. -/
@@ -116,29 +132,49 @@ theorem dropWhile_head_false {p : Char → Bool} {c : Char} {r : List Char} (h :
     (c :: r).dropWhile p = c :: r := by
   simp [List.dropWhile, h]
 
-theorem strip_digits {g : List Char} (h : Digits g) : strip g = g := by
-  obtain ⟨hne, hd⟩ := h
+theorem blank_strip {c : Char} (h : isBlank c = true) : isIntStrip c = true := by
+  have hc : c = ' ' ∨ c = '\t' := by simpa [isBlank] using h
+  rcases hc with rfl | rfl <;> decide
+
+theorem dropWhile_blanks_append {p : List Char} (hp : Blanks p) (r : List Char) :
+    (p ++ r).dropWhile isIntStrip = r.dropWhile isIntStrip := by
+  induction p with
+  | nil => rfl
+  | cons c t ih =>
+    have hc := blank_strip (hp c (by simp))
+    simp only [List.cons_append, List.dropWhile_cons, hc, if_true]
+    exact ih (fun c' h' => hp c' (List.mem_cons_of_mem _ h'))
+
+/-- `str.strip()` as `int()` applies it removes the blanks around a digit string. -/
+theorem strip_pad {g d : List Char} (h : PadDigits g d) : strip g = d := by
+  obtain ⟨p, q, rfl, hp, hq, hne, hd⟩ := h
   unfold strip stripLeft
-  have h1 : g.dropWhile isIntStrip = g := by
-    cases g with
+  have h1 : (p ++ d ++ q).dropWhile isIntStrip = d ++ q := by
+    rw [List.append_assoc, dropWhile_blanks_append hp]
+    cases d with
     | nil => exact absurd rfl hne
     | cons c r => exact dropWhile_head_false (digit_not_strip (hd c (by simp)))
   rw [h1]
-  have h2 : g.reverse.dropWhile isIntStrip = g.reverse := by
-    cases hr : g.reverse with
+  have hq' : Blanks q.reverse := fun c hc => hq c (List.mem_reverse.mp hc)
+  have h2 : (d ++ q).reverse.dropWhile isIntStrip = d.reverse := by
+    rw [List.reverse_append, dropWhile_blanks_append hq']
+    cases hr : d.reverse with
     | nil => rfl
     | cons c r =>
-      have : c ∈ g := by
-        have : c ∈ g.reverse := by rw [hr]; simp
+      have : c ∈ d := by
+        have : c ∈ d.reverse := by rw [hr]; simp
         exact List.mem_reverse.mp this
       exact dropWhile_head_false (digit_not_strip (hd c this))
   rw [h2, List.reverse_reverse]
 
-theorem pyInt_digits {g : List Char} (h : Digits g) : pyInt g = some (Int.ofNat (decValue g)) := by
+theorem strip_digits {g : List Char} (h : Digits g) : strip g = g :=
+  strip_pad (PadDigits.of_digits h)
+
+theorem pyInt_pad {g d : List Char} (h : PadDigits g d) : pyInt g = some (Int.ofNat (decValue d)) := by
   unfold pyInt
-  rw [strip_digits h]
-  obtain ⟨hne, hd⟩ := h
-  cases g with
+  rw [strip_pad h]
+  obtain ⟨_, _, _, _, _, hne, hd⟩ := h
+  cases d with
   | nil => exact absurd rfl hne
   | cons c r =>
     have hc := hd c (by simp)
@@ -149,6 +185,15 @@ theorem pyInt_digits {g : List Char} (h : Digits g) : pyInt g = some (Int.ofNat 
     · rename_i heq; cases heq; exact absurd rfl n2
     · rw [pyDigits_digits _ 0 false hd (Or.inl (by simp))]
       rfl
+
+theorem pyInt_digits {g : List Char} (h : Digits g) : pyInt g = some (Int.ofNat (decValue g)) :=
+  pyInt_pad (PadDigits.of_digits h)
+
+theorem padDigits_ne_nil {g d : List Char} (h : PadDigits g d) : g ≠ [] := by
+  obtain ⟨p, q, rfl, _, _, hne, _⟩ := h
+  intro e
+  simp at e
+  exact hne e.2.1
 
 /-! ### the quantifier pattern -/
 
@@ -170,72 +215,96 @@ theorem take_length_append (g r : List Char) : (g ++ r).take g.length = g := by
   | nil => simp
   | cons c t ih => simp [ih]
 
-/-- Digit strings (or empty ones) contain no comma, brace or newline. -/
-def BoundText (g : List Char) : Prop := ∀ c ∈ g, c.isDigit = true
+/-- The text of a group of the quantifier pattern: `.*?` up to the stop character `x` (`,` for
+the first group, `}` for the second) never contains `x` or a newline. -/
+def NoStop (x : Char) (g : List Char) : Prop := ∀ c ∈ g, c ≠ x ∧ c ≠ '\n'
 
-theorem quantGroups_spelled {g1 g2 : List Char} (h1 : BoundText g1) (h2 : BoundText g2)
+/-- Digit strings, blanks (or empty texts) contain no comma, brace or newline. -/
+def BoundText (g : List Char) : Prop := ∀ c ∈ g, c.isDigit = true ∨ isBlank c = true
+
+theorem BoundText.noStop {g : List Char} (h : BoundText g) {x : Char} (hx : x.isDigit = false)
+    (hb : isBlank x = false) : NoStop x g := by
+  intro c hc
+  rcases h c hc with hd | hbl
+  · exact ⟨digit_ne hd hx, digit_ne hd (by decide)⟩
+  · have hc : c = ' ' ∨ c = '\t' := by simpa [isBlank] using hbl
+    constructor
+    · intro e; subst e; rw [hbl] at hb; cases hb
+    · rcases hc with rfl | rfl <;> decide
+
+theorem quantGroups_of_noStop {g1 g2 : List Char} (h1 : NoStop ',' g1) (h2 : NoStop '}' g2)
     (rest : List Char) :
     quantGroups ('{' :: (g1 ++ ',' :: (g2 ++ '}' :: rest))) = some (g1, g2) := by
   unfold quantGroups
   have t1 : (g1 ++ ',' :: (g2 ++ '}' :: rest)).takeWhile (fun c => c != ',' && c != '\n') = g1 := by
     apply takeWhile_append_stop
     · intro c hc
-      have := h1 c hc
-      have n1 : c ≠ ',' := digit_ne this (by decide)
-      have n2 : c ≠ '\n' := digit_ne this (by decide)
+      obtain ⟨n1, n2⟩ := h1 c hc
       simp [n1, n2]
     · simp
   have t2 : (g2 ++ '}' :: rest).takeWhile (fun c => c != '}' && c != '\n') = g2 := by
     apply takeWhile_append_stop
     · intro c hc
-      have := h2 c hc
-      have n1 : c ≠ '}' := digit_ne this (by decide)
-      have n2 : c ≠ '\n' := digit_ne this (by decide)
+      obtain ⟨n1, n2⟩ := h2 c hc
       simp [n1, n2]
     · simp
   simp only [t1, drop_length_append, t2]
 
+theorem quantGroups_spelled {g1 g2 : List Char} (h1 : BoundText g1) (h2 : BoundText g2)
+    (rest : List Char) :
+    quantGroups ('{' :: (g1 ++ ',' :: (g2 ++ '}' :: rest))) = some (g1, g2) :=
+  quantGroups_of_noStop (h1.noStop (by decide) (by decide)) (h2.noStop (by decide) (by decide)) rest
+
+theorem boundText_of_pad {g d : List Char} (h : PadDigits g d) : BoundText g := by
+  obtain ⟨p, q, rfl, hp, hq, _, hd⟩ := h
+  intro c hc
+  simp only [List.mem_append] at hc
+  rcases hc with (hc | hc) | hc
+  · exact Or.inr (hp c hc)
+  · exact Or.inl (hd c hc)
+  · exact Or.inr (hq c hc)
+
 theorem boundText_of_lo {g1 : List Char} {lo : Nat}
-    (h : (g1 = [] ∧ lo = 0) ∨ (Digits g1 ∧ decValue g1 = lo)) : BoundText g1 := by
-  rcases h with ⟨rfl, _⟩ | ⟨⟨_, hd⟩, _⟩
+    (h : (g1 = [] ∧ lo = 0) ∨ (∃ d, PadDigits g1 d ∧ decValue d = lo)) : BoundText g1 := by
+  rcases h with ⟨rfl, _⟩ | ⟨d, hp, _⟩
   · intro c hc; simp at hc
-  · exact hd
+  · exact boundText_of_pad hp
 
 theorem boundText_of_hi {g2 : List Char} {lo : Nat} {hi : Option Nat}
-    (h : (g2 = [] ∧ hi = none) ∨ (Digits g2 ∧ hi = some (decValue g2) ∧ lo ≤ decValue g2)) :
+    (h : (g2 = [] ∧ hi = none) ∨ (∃ d, PadDigits g2 d ∧ hi = some (decValue d) ∧ lo ≤ decValue d)) :
     BoundText g2 := by
-  rcases h with ⟨rfl, _⟩ | ⟨⟨_, hd⟩, _⟩
+  rcases h with ⟨rfl, _⟩ | ⟨d, hp, _⟩
   · intro c hc; simp at hc
-  · exact hd
+  · exact boundText_of_pad hp
 
 theorem quantFromMatch_spelled {g1 g2 : List Char} {lo : Nat} {hi : Option Nat}
-    (h1 : (g1 = [] ∧ lo = 0) ∨ (Digits g1 ∧ decValue g1 = lo))
-    (h2 : (g2 = [] ∧ hi = none) ∨ (Digits g2 ∧ hi = some (decValue g2) ∧ lo ≤ decValue g2)) :
+    (h1 : (g1 = [] ∧ lo = 0) ∨ (∃ d, PadDigits g1 d ∧ decValue d = lo))
+    (h2 : (g2 = [] ∧ hi = none) ∨ (∃ d, PadDigits g2 d ∧ hi = some (decValue d) ∧ lo ≤ decValue d)) :
     quantFromMatch ('{' :: (g1 ++ ',' :: (g2 ++ ['}']))) = .ok (.quant lo hi) := by
   unfold quantFromMatch
   have hq := quantGroups_spelled (boundText_of_lo h1) (boundText_of_hi h2) []
   rw [hq]
   simp only
   have e1 : (if g1.isEmpty then some (0 : Int) else pyInt g1) = some (Int.ofNat lo) := by
-    rcases h1 with ⟨rfl, rfl⟩ | ⟨hd, rfl⟩
+    rcases h1 with ⟨rfl, rfl⟩ | ⟨d, hd, rfl⟩
     · rfl
     · have : g1.isEmpty = false := by
         cases g1 with
-        | nil => exact absurd rfl hd.1
+        | nil => exact absurd rfl (padDigits_ne_nil hd)
         | cons _ _ => rfl
-      simp only [this, pyInt_digits hd]
+      simp only [this, pyInt_pad hd]
       rfl
   rw [e1]
   simp only
-  rcases h2 with ⟨rfl, rfl⟩ | ⟨hd, rfl, hle⟩
+  rcases h2 with ⟨rfl, rfl⟩ | ⟨d, hd, rfl, hle⟩
   · simp
   · have : g2.isEmpty = false := by
       cases g2 with
-      | nil => exact absurd rfl hd.1
+      | nil => exact absurd rfl (padDigits_ne_nil hd)
       | cons _ _ => rfl
-    simp only [this, pyInt_digits hd]
+    simp only [this, pyInt_pad hd]
     have n1 : ¬ ((lo : Int) < 0) := by omega
-    have n2 : ¬ (decValue g2 < lo) := by omega
+    have n2 : ¬ (decValue d < lo) := by omega
     simp [n1, n2]
 
 /-! ### one token -/
